@@ -8,6 +8,13 @@
 // (z*base == R, bn256.ScalarMult + Marshal equality); candidates for z are found by an auxiliary
 // big.Int Lagrange computation, but nothing is believed about a candidate except that check.
 // If no candidate passes, the observable says "no certified logarithm".
+//
+// All cases run in ONE process (the production situation: a long-lived client recovers again and
+// again).  Besides independent calls there are HISTORIES (input.Hist): several recoveries made
+// back to back from participant lists chosen to be confusable - equal decimal concatenations of
+// the member indices ([1,12,3] / [11,2,3]), other thresholds over the same digits ([12,3]),
+// leading digits ([10,2] / [1,0,2]) - with member indices of the production group size (64) and
+// beyond (255, 1000).  A history is one case: it replays on its own in a fresh process.
 package main
 
 import (
@@ -69,8 +76,9 @@ type entIn struct {
 }
 
 type input struct {
-	Rec *recIn `json:"rec,omitempty"`
-	Ent *entIn `json:"ent,omitempty"`
+	Rec  *recIn   `json:"rec,omitempty"`
+	Ent  *entIn   `json:"ent,omitempty"`
+	Hist []*recIn `json:"hist,omitempty"` // recoveries made one after the other in this process
 }
 
 func bi(s string) *big.Int {
@@ -187,7 +195,32 @@ func listZBig(vs []*big.Int) string {
 
 // ---------------------------------------------------------------- RecoverSignature / RecoverPublicKey
 
-func runRec(in *recIn, em *lib.Emitter, id string) {
+// recRun is one executed recovery: the Coq rec_case term, the observable and structural features.
+type recRun struct {
+	term            string
+	kind            string
+	ver             bool
+	z               *big.Int
+	resBytes        []byte
+	nValid          int
+	skipBeforeValid bool
+	ascending       bool
+	dup             bool
+	used            []int // indices of the usable entries, in list order
+}
+
+func (x *recRun) out() map[string]interface{} {
+	out := map[string]interface{}{"kind": x.kind, "verifies": x.ver}
+	if x.z != nil {
+		out["certified_dlog"] = x.z.String()
+	}
+	if x.resBytes != nil {
+		out["point"] = fmt.Sprintf("%x", x.resBytes)
+	}
+	return out
+}
+
+func execRec(in *recIn, em *lib.Emitter) *recRun {
 	coeffs := make([]*big.Int, len(in.Coeffs))
 	for i, c := range in.Coeffs {
 		coeffs[i] = bi(c)
@@ -257,6 +290,7 @@ func runRec(in *recIn, em *lib.Emitter, id string) {
 	// Coq term and structural features
 	ents := make([]string, len(in.Entries))
 	nValid, skips, skipBeforeValid, ascending := 0, 0, false, true
+	var used []int
 	last := -1
 	seenSkip := false
 	idx := map[int]bool{}
@@ -276,6 +310,7 @@ func runRec(in *recIn, em *lib.Emitter, id string) {
 			continue
 		}
 		nValid++
+		used = append(used, e.I)
 		if seenSkip {
 			skipBeforeValid = true
 		}
@@ -288,8 +323,9 @@ func runRec(in *recIn, em *lib.Emitter, id string) {
 		}
 		idx[e.I] = true
 	}
+	_ = skips
 	fnT := map[string]string{"sig": "FSig", "pub": "FPub"}[in.Fn]
-	coq := fmt.Sprintf("(CRec {| c_fn := %s; c_entries := %s; c_threshold := %s; c_coeffs := %s; c_obs := %s |})",
+	term := fmt.Sprintf("{| c_fn := %s; c_entries := %s; c_threshold := %s; c_coeffs := %s; c_obs := %s |}",
 		fnT, lib.List(ents), lib.Z(int64(in.Threshold)), listZBig(coeffs), obsTerm(kind, z, ver))
 	em.Tally("rec-" + in.Fn + "-out-" + kind)
 	em.Tally(fmt.Sprintf("rec-threshold-%02d", in.Threshold))
@@ -302,23 +338,114 @@ func runRec(in *recIn, em *lib.Emitter, id string) {
 	if dup {
 		em.Tally("rec-duplicate-index")
 	}
-	out := map[string]interface{}{"kind": kind, "verifies": ver}
-	if z != nil {
-		out["certified_dlog"] = z.String()
+	maxIdx := 0
+	for _, i := range used {
+		if i > maxIdx {
+			maxIdx = i
+		}
 	}
-	if resBytes != nil {
-		out["point"] = fmt.Sprintf("%x", resBytes)
+	switch {
+	case maxIdx >= 100:
+		em.Tally("rec-max-index-100+")
+	case maxIdx >= 11:
+		em.Tally("rec-max-index-11..99")
 	}
+	return &recRun{term: term, kind: kind, ver: ver, z: z, resBytes: resBytes, nValid: nValid,
+		skipBeforeValid: skipBeforeValid, ascending: ascending, dup: dup, used: used}
+}
+
+func runRec(in *recIn, em *lib.Emitter, id string) {
+	x := execRec(in, em)
 	em.Case(lib.Case{
 		ID:  id,
-		Coq: coq,
+		Coq: "(CRec " + x.term + ")",
 		Key: fmt.Sprintf("rec|%s|%v|%d|%v", in.Fn, in.Entries, in.Threshold, in.Coeffs),
-		Nontrivial: kind == "point" && in.Threshold >= 2 && nValid >= in.Threshold && !dup &&
-			(skipBeforeValid || !ascending),
-		Sig: map[string]interface{}{"kind": "rec", "fn": in.Fn, "skip_before_valid": skipBeforeValid,
-			"ascending": ascending, "duplicate": dup},
+		Nontrivial: x.kind == "point" && in.Threshold >= 2 && x.nValid >= in.Threshold && !x.dup &&
+			(x.skipBeforeValid || !x.ascending),
+		Sig: map[string]interface{}{"kind": "rec", "fn": in.Fn, "skip_before_valid": x.skipBeforeValid,
+			"ascending": x.ascending, "duplicate": x.dup},
 		In:  input{Rec: in},
-		Out: out,
+		Out: x.out(),
+	})
+}
+
+// concatKey is the decimal concatenation of the participants a recovery interpolates over (the
+// first `threshold` usable entries), without separators.
+func concatKey(used []int, threshold int) (string, []int) {
+	if threshold >= 0 && threshold < len(used) {
+		used = used[:threshold]
+	}
+	var b strings.Builder
+	for _, i := range used {
+		fmt.Fprintf(&b, "%d", i)
+	}
+	return b.String(), used
+}
+
+func sameInts(a, b []int) bool {
+	if len(a) != len(b) {
+		return false
+	}
+	for i := range a {
+		if a[i] != b[i] {
+			return false
+		}
+	}
+	return true
+}
+
+// runHist makes the recoveries of [ins] one after the other in THIS process and emits them as one
+// history case; the Coq side judges every call separately.
+func runHist(ins []*recIn, em *lib.Emitter, id string) {
+	terms := make([]string, len(ins))
+	outs := make([]interface{}, len(ins))
+	keys := make([]string, len(ins))
+	type part struct {
+		key  string
+		used []int
+	}
+	var parts []part
+	allPoints, collide, collideSameT := true, 0, 0
+	fns := map[string]bool{}
+	for k, in := range ins {
+		x := execRec(in, em)
+		terms[k] = x.term
+		outs[k] = x.out()
+		keys[k] = fmt.Sprintf("%s|%v|%d|%v", in.Fn, in.Entries, in.Threshold, in.Coeffs)
+		fns[in.Fn] = true
+		if x.kind != "point" {
+			allPoints = false
+		}
+		ck, u := concatKey(x.used, in.Threshold)
+		for _, p := range parts {
+			if p.key == ck && !sameInts(p.used, u) {
+				collide++
+				if len(p.used) == len(u) {
+					collideSameT++
+				}
+				break
+			}
+		}
+		parts = append(parts, part{ck, u})
+	}
+	em.Tally(fmt.Sprintf("hist-length-%d", len(ins)))
+	if collide > 0 {
+		em.Tally("hist-with-equal-decimal-concatenation")
+	}
+	if collideSameT > 0 {
+		em.Tally("hist-with-equal-concatenation-same-threshold")
+	}
+	if len(fns) == 2 {
+		em.Tally("hist-sig-and-pub-interleaved")
+	}
+	em.Case(lib.Case{
+		ID:         id,
+		Coq:        "(CHist " + lib.List(terms) + ")",
+		Key:        "hist|" + strings.Join(keys, "||"),
+		Nontrivial: allPoints && collide > 0 && len(ins) >= 2,
+		Sig:        map[string]interface{}{"kind": "hist", "equal_concatenation": collide > 0, "len": len(ins)},
+		In:         input{Hist: ins},
+		Out:        map[string]interface{}{"calls": outs},
 	})
 }
 
@@ -518,7 +645,15 @@ func genRec(r *lib.Rng, fn string, n, t, k int, nSkips int, fault string) *recIn
 	for i := range cs {
 		cs[i] = randCoeff(r)
 	}
-	members := r.Perm(n)
+	// the members' indices: 1..n, or n seats of a larger group (64, 255, 1000 members)
+	universe := n
+	if r.Chance(1, 2) {
+		universe = []int{64, 255, 1000}[r.Intn(3)]
+		if universe < n {
+			universe = n
+		}
+	}
+	members := r.Perm(universe)
 	var entries []entryIn
 	for j := 0; j < k && j < n; j++ {
 		i := members[j] + 1
@@ -602,6 +737,169 @@ func genEnt(r *lib.Rng, n, t int, fault string) *entIn {
 		Coeffs: polyStrings(cs), Msgs: msgs, Msg: fmt.Sprintf("e%x", r.U64())}
 }
 
+// ---------------------------------------------------------------- colliding participant lists
+
+// splitsOf enumerates the ways to cut the digit string s into k decimal numbers without leading
+// zeros ("0" itself is allowed), each at most maxVal.
+func splitsOf(s string, k int, maxVal int) [][]int {
+	var out [][]int
+	var rec func(pos int, cur []int)
+	rec = func(pos int, cur []int) {
+		if len(cur) == k {
+			if pos == len(s) {
+				out = append(out, append([]int{}, cur...))
+			}
+			return
+		}
+		for end := pos + 1; end <= len(s) && end-pos <= 6; end++ {
+			if s[pos] == '0' && end-pos > 1 {
+				break
+			}
+			v := 0
+			fmt.Sscanf(s[pos:end], "%d", &v)
+			if v > maxVal {
+				break
+			}
+			rec(end, append(cur, v))
+		}
+	}
+	rec(0, nil)
+	return out
+}
+
+func distinctInts(l []int) bool {
+	seen := map[int]bool{}
+	for _, v := range l {
+		if seen[v] {
+			return false
+		}
+		seen[v] = true
+	}
+	return true
+}
+
+// resplit returns a participant list different from a whose decimal concatenation equals a's:
+// a window of 2..3 neighbours (the whole list when it is short) is cut at other places into
+// `delta` more (or fewer) numbers.  nil when there is none with pairwise distinct indices.
+func resplit(r *lib.Rng, a []int, delta int, maxVal int) []int {
+	type win struct{ from, w int }
+	var wins []win
+	for w := 2; w <= 3 && w <= len(a); w++ {
+		for from := 0; from+w <= len(a); from++ {
+			wins = append(wins, win{from, w})
+		}
+	}
+	if len(a) <= 5 {
+		wins = append(wins, win{0, len(a)})
+	}
+	for _, wi := range r.Perm(len(wins)) {
+		wn := wins[wi]
+		k := wn.w + delta
+		if k < 1 {
+			continue
+		}
+		str, _ := concatKey(a[wn.from:wn.from+wn.w], -1)
+		cands := splitsOf(str, k, maxVal)
+		for _, ci := range r.Perm(len(cands)) {
+			b := append(append(append([]int{}, a[:wn.from]...), cands[ci]...), a[wn.from+wn.w:]...)
+			if !sameInts(a, b) && distinctInts(b) {
+				return b
+			}
+		}
+	}
+	return nil
+}
+
+// histRec builds one call of a history: correct shares of `members` (in this order: the order is
+// what the recovery interpolates over) of the polynomial master[:t], t = len(members), optionally
+// followed by surplus shares and interleaved with skippable entries.
+func histRec(r *lib.Rng, fn string, master []*big.Int, members []int, msg string, decorate bool) *recIn {
+	t := len(members)
+	cs := master[:t]
+	var entries []entryIn
+	for _, i := range members {
+		entries = append(entries, entryIn{I: i, V: evalPoly(cs, int64(i)).String()})
+	}
+	if decorate {
+		for s, n := 0, r.Intn(3); s < n; s++ {
+			p := r.Intn(len(entries) + 1)
+			entries = append(entries[:p], append([]entryIn{skipEntry(r, r.Intn(3))}, entries[p:]...)...)
+		}
+		for s, n := 0, r.Intn(3); s < n; s++ { // surplus shares after the threshold ones are never read
+			i := 1 + r.Intn(1000)
+			entries = append(entries, entryIn{I: i, V: evalPoly(cs, int64(i)).String()})
+		}
+	}
+	return &recIn{Fn: fn, Entries: entries, Threshold: t, Coeffs: polyStrings(cs), Msg: msg}
+}
+
+// genHist builds a history around participant lists with equal decimal concatenations:
+// a (t members drawn from 1..universe, any order), b (same count, cut elsewhere: same threshold)
+// and, when there is one, c (one member more or fewer: another threshold), recovered back to
+// back in a random order, signatures interleaved with public keys, some calls repeated later.
+func genHist(r *lib.Rng, t, universe int) []*recIn {
+	for try := 0; try < 50; try++ {
+		p := r.Perm(universe)
+		a := make([]int, t)
+		for j := range a {
+			a[j] = p[j] + 1
+		}
+		if r.Chance(1, 6) { // a leading-digit pattern: 10,1 / 1,0,1 ; 100,2 / 10,0,2
+			a[0] = []int{10, 100, 20, 110}[r.Intn(4)]
+		}
+		if !distinctInts(a) {
+			continue
+		}
+		maxVal := 1000
+		if universe > maxVal {
+			maxVal = universe
+		}
+		b := resplit(r, a, 0, maxVal)
+		if b == nil {
+			continue
+		}
+		lists := [][]int{a, b}
+		large := t > 10 // keep the term small: just the pair, one function
+		if large {
+		} else if c := resplit(r, a, []int{-1, 1}[r.Intn(2)], maxVal); c != nil && len(c) >= 1 && r.Chance(2, 3) {
+			lists = append(lists, c)
+		}
+		if b2 := resplit(r, b, 0, maxVal); !large && b2 != nil && !sameInts(b2, a) && r.Chance(1, 2) {
+			lists = append(lists, b2)
+		}
+		master := make([]*big.Int, t+1)
+		for j := range master {
+			master[j] = randCoeff(r)
+		}
+		msg := fmt.Sprintf("h%x", r.U64())
+		var h []*recIn
+		fn := []string{"sig", "pub"}[r.Intn(2)]
+		for _, li := range r.Perm(len(lists)) {
+			if r.Chance(1, 4) {
+				fn = []string{"sig", "pub"}[r.Intn(2)]
+			}
+			h = append(h, histRec(r, fn, master, lists[li], msg, r.Chance(1, 3)))
+			if !large && r.Chance(1, 3) { // the other function on the same list in between
+				other := map[string]string{"sig": "pub", "pub": "sig"}[fn]
+				h = append(h, histRec(r, other, master, lists[li], msg, false))
+			}
+		}
+		if r.Chance(1, 2) { // recover again from an earlier list after the later calls
+			first := *h[0]
+			h = append(h, &first)
+		}
+		if !large && r.Chance(1, 4) { // another group (polynomial) over the same member lists
+			m2 := make([]*big.Int, t+1)
+			for j := range m2 {
+				m2[j] = randCoeff(r)
+			}
+			h = append(h, histRec(r, fn, m2, lists[r.Intn(len(lists))], msg+"'", false))
+		}
+		return h
+	}
+	return nil
+}
+
 func permutations(n int) [][]int {
 	if n == 0 {
 		return [][]int{{}}
@@ -625,7 +923,9 @@ func main() {
 			fmt.Fprintln(os.Stderr, err)
 			os.Exit(2)
 		}
-		if in.Rec != nil {
+		if in.Hist != nil {
+			runHist(in.Hist, em, "replay")
+		} else if in.Rec != nil {
 			runRec(in.Rec, em, "replay")
 		} else {
 			runEnt(in.Ent, em, "replay")
@@ -674,6 +974,46 @@ func main() {
 				{Sender: 4, Share: evalPoly(cs, 4).String()}, {Sender: 1, Share: evalPoly(cs, 1).String()}}}, em, "corpus-entry-mixed")
 		runEnt(&entIn{Self: 1, SelfShare: "0", Pks: []pkIn{{1, "0"}, {2, "0"}}, Threshold: 2, Coeffs: []string{"0"}, Msg: "corpus",
 			Msgs: []msgIn{{Sender: 2, Share: "0"}}}, em, "corpus-entry-identity-share")
+	}
+
+	// --- histories in this one process: participant lists whose decimal concatenations are equal
+	// ([1,12,3] / [11,2,3]; [1,2,3] / [12,3]; [10,1] / [1,0,1]) recovered back to back, in both
+	// orders, signatures interleaved with public keys, earlier lists recovered again later.  They
+	// run before the independent streams so that whatever a recovery may have left behind in the
+	// process is left by the history itself (a stored history replays on its own).
+	{
+		cs := []*big.Int{big.NewInt(1234567891011), big.NewInt(987654321), big.NewInt(55555333331), big.NewInt(42)}
+		mk := func(fn string, members ...int) *recIn { return histRec(nil, fn, cs, members, "corpus-h", false) }
+		runHist([]*recIn{mk("sig", 1, 12, 3), mk("sig", 11, 2, 3), mk("sig", 3, 2, 11), mk("sig", 12, 1, 3), mk("sig", 1, 2, 3)},
+			em, "corpus-hist-1-12-3-then-11-2-3")
+		runHist([]*recIn{mk("pub", 21, 4, 5), mk("sig", 2, 14, 5), mk("pub", 2, 14, 5), mk("sig", 21, 4, 5)},
+			em, "corpus-hist-pub-21-4-5-then-2-14-5")
+		runHist([]*recIn{mk("sig", 31, 7), mk("sig", 3, 17), mk("pub", 3, 1, 7), mk("sig", 3, 1, 7), mk("sig", 31, 7)},
+			em, "corpus-hist-other-threshold-31-7-then-3-1-7")
+		runHist([]*recIn{mk("sig", 1, 0, 2), mk("sig", 10, 2), mk("pub", 10, 2), mk("pub", 1, 0, 2)},
+			em, "corpus-hist-leading-digit-1-0-2-then-10-2")
+		runHist([]*recIn{mk("sig", 64, 5, 33), mk("sig", 6, 45, 33), mk("sig", 64, 53, 3), mk("sig", 6, 4, 5, 33)},
+			em, "corpus-hist-production-indices-64")
+	}
+	nHist := o.Count(40, 600)
+	for i := 0; i < nHist; i++ {
+		r := rng.Fork(fmt.Sprintf("hist%d", i))
+		t := r.Range(2, 5)
+		universe := []int{12, 64, 64, 255, 1000}[r.Intn(5)]
+		if i%20 == 3 { // the beacon's group: 33 of 64
+			t, universe = 33, 64
+			if o.Tier == "quick" {
+				t = 17
+			}
+		}
+		if t > universe {
+			t = universe
+		}
+		if h := genHist(r, t, universe); h != nil {
+			runHist(h, em, fmt.Sprintf("hist-%d", i))
+		} else {
+			em.Tally("hist-generator-gave-up")
+		}
 	}
 
 	// --- small scope: groups of up to 4 members, every subset order, one skippable entry of
@@ -764,9 +1104,12 @@ func main() {
 		}
 		runEnt(genEnt(r, n, t, fault), em, fmt.Sprintf("entry-%d", i))
 	}
-	em.Close("a case is one call of RecoverSignature / RecoverPublicKey on a share list, or one run of the "+
+	em.Close("a case is one call of RecoverSignature / RecoverPublicKey on a share list, a HISTORY of such calls made "+
+		"back to back in one process (every call judged separately), or one run of the "+
 		"relay-entry glue (messages through extractAndValidateShare, then completeSignature); distinct by "+
 		"(function, entries, threshold, polynomial); non-trivial: a recovery with threshold >= 2 from distinct "+
-		"indices where a skippable entry precedes a used share or the shares are not in index order; for the "+
+		"indices where a skippable entry precedes a used share or the shares are not in index order; a history: "+
+		"all calls return points and two calls interpolate over different participant lists with the same decimal "+
+		"concatenation (member indices >= 10); for the "+
 		"glue: a completed signature with at least one rejected and one accepted message", nil)
 }
